@@ -8,7 +8,7 @@ export GOFLAGS=-mod=mod GOPROXY=off GOSUMDB=off GOTOOLCHAIN=local
 S=$(mktemp -d /tmp/verif-selftest-XXXXXX); trap 'rm -rf "$S"' EXIT
 fail=0
 bin/simgen -src /repo -dst $S/repo -tests >/dev/null || exit 2
-echo "replace verif.local/simrt => /verif/simrt" >> $S/repo/go.mod
+echo "replace verif.local/simrt => $PWD/simrt" >> $S/repo/go.mod
 echo "== 1. repository test suite on the instrumented copy"
 for cfg in "0" "1" "2:1" "2:2" "3:1" "3:2" "4:5"; do
   r=$(cd $S/repo && SIMRT_SELFTEST=$cfg go test -tags verif,purego -count=1 ./... 2>&1 | tail -1); echo "  order=$cfg: $r"; echo "$r" | grep -q '^ok' || fail=1
@@ -30,7 +30,7 @@ require (
 
 replace github.com/google/jsonschema-go => $S/repo
 
-replace verif.local/simrt => /verif/simrt
+replace verif.local/simrt => $PWD/simrt
 EOM
 cp /repo/go.sum $S/go.sum
 (cd sim && go build -tags verif,purego -modfile=$S/go.mod -o $S/simrun ./cmd/simrun && go build -race -tags verif,purego -modfile=$S/go.mod -o $S/simrun.race ./cmd/simrun) || exit 2
